@@ -61,6 +61,7 @@ def main():
     ap.add_argument("--all", action="store_true")
     ap.add_argument("--tier", default="quick")
     ap.add_argument("--budget", type=float)
+    ap.add_argument("--target-only", action="store_true", help="with --all: run only the check each change was written for")
     a = ap.parse_args()
     if a.all:
         base = os.path.join(VERIF, "seeded")
@@ -70,11 +71,12 @@ def main():
             if not os.path.exists(meta_p):
                 continue
             meta = json.load(open(meta_p))
-            props = a.props.split(",") if a.props else meta["properties"]
+            props = a.props.split(",") if a.props else ([meta["breaks"]] if a.target_only else meta["properties"])
             res = run_one(os.path.join(base, name, "patch.diff"), None, props, a.runs, tier=a.tier, budget=a.budget)
             caught = [p for p, r in res.items() if r["rc"] == 1]
             summary[name] = {"caught_by": caught, "results": {p: (r["rc"], r["wall"]) for p, r in res.items()}}
-            meta["final_check"] = {"caught_by": caught, "rc": {p: r["rc"] for p, r in res.items()},
+            key = "final_target_check" if a.target_only else "final_check"
+            meta[key] = {"caught_by": caught, "rc": {p: r["rc"] for p, r in res.items()},
                                    "classes": {p: [c.split(" (minimised")[0].replace("violation class: ", "") for c in r["classes"]][:3]
                                                for p, r in res.items()},
                                    "verif_commit": subprocess.run(["git", "-C", VERIF, "rev-parse", "--short", "HEAD"],
